@@ -148,6 +148,8 @@ class _IsolatingClusterer:
     def __init__(self, u0):
         self.u0 = float(u0)
         self.n_clusters_ = 2
+        self.cluster_centers_ = np.array([[0.5, 0.5], [float(u0), 0.5]])      # attributes of the library's own clusterer
+        self.cluster_weights_ = np.array([0.9, 0.1])
 
     def predict(self, u):
         return (np.abs(np.asarray(u)[:, 0] - self.u0) < 1e-9).astype(int)
@@ -232,8 +234,31 @@ def drive_resampler(rng, n, w, scheme, blobs):
         # which rows are selected must not depend on the labels
         j_iso = int(np.argmin(np.abs(n * wn - 1.0) + (wn == 0) * 10))
         clu, clustering = _IsolatingClusterer(j_iso / max(m, 1) * 0.999), True
+    used = bool(rng.random() < 0.4)
+    if used:
+        # the Resampler (and its state manager) has already resampled ANOTHER pool; then the history is replaced by the pool that
+        # is judged (a checkpoint of another run loaded into a live sampler).  Decoy rows are recognisable: logL <= -10000.
+        sm_real = sm
+        sm = StateManager(2)
+        nb = len(parts) - int(rng.integers(0, 2)) if len(parts) > 1 else 1       # as many batches as the real pool, or one fewer
+        md = 0
+        for b in range(nb):
+            k_ = int(rng.integers(2, 12))
+            pd_ = np.arange(md, md + k_)
+            ud = np.stack([pd_ / 200.0, np.full(k_, 0.5)], axis=1)
+            upd = dict(u=ud, x=10 * ud + 1, logl=-(pd_.astype(float) + 10000.0), beta=0.5, logz=0.0)
+            if blobs:
+                upd["blobs"] = pd_.astype(float) + 10000.5
+            sm.update_current(upd)
+            sm.commit_current_to_history()
+            md += k_
+        sm.set_current("beta", 0.5)
     rs = Resampler(sm, n_particles=n, resample=scheme, clusterer=clu, clustering=clustering, have_blobs=blobs)
     try:
+        if used:
+            rs.run(np.ones(md) / md)
+            sm.update_from_dict(sm_real.to_dict())
+            sm.set_current("beta", float(sm_real.get_current("beta")))
         rs.run(wn.copy())
     except Exception as e:
         return [(f"resampler-exception-{type(e).__name__}", f"Resampler.run({scheme}) raised {e}", None)]
@@ -243,7 +268,8 @@ def drive_resampler(rng, n, w, scheme, blobs):
         bad.append(("resampler-length", f"{scheme}: got {cur['u'].shape} rows for n={n}", None))
         return bad
     if ids.min() < 0 or ids.max() >= m:
-        bad.append(("resampler-range", "row outside pool", None))
+        bad.append(("resampler-range", "a selected row is not a row of the pool the weights refer to" + (" (it belongs to the pool this Resampler had resampled before "
+                    "the history was replaced)" if ids.max() >= 10000 else ""), None))
         return bad
     if np.any(wn[ids] == 0):
         bad.append(("zero-weight-drawn", f"{scheme}: a zero-weight pool row was selected", None))
